@@ -517,6 +517,9 @@ PrinterPtr Printer::create() noexcept
 
 std::string Printer::printModel(const ModelPtr &model, bool autoIds)
 {
+    // Clear any pre-existing issues in this printer instance.
+    pFunc()->removeAllIssues();
+
     if (model == nullptr) {
         return "";
     }
